@@ -166,10 +166,12 @@ def _vc_component(R: Report, pid: str, tier: str, only=None):
                 R.bounded[f"witness:{q}"] = {"evaluations": stats.get("ran", 0), "distinct_nontrivial": stats.get("ran", 0),
                                              "rule": "enumerated small inputs by parameter type", "bound": "list sizes <= 4"}
             else:
-                # a function that was fully discharged on the committed tree and can no longer be brought under its
-                # contract (a construct outside the verifiable subset appeared): reported as the failed obligation it is
-                R.violation(f"K.{q.replace('pyvolutionary.', '')}", f"the obligations of {q} can no longer be generated: {reason}",
-                            {"replay_kind": "none", "reason": reason, "witness_search": stats}, no_input=True)
+                # The function can no longer be brought under its contract (a construct outside the verifiable subset
+                # appeared) and there is no run-time generator for its signature: its obligations are *undecided*, not
+                # refuted.  The verdict for the property then rests on the bounded components of the same check (campaign /
+                # laws / scenarios run against the same tree and report on their own); the loss of the proof is reported.
+                R.degraded.append({"what": q, "why": f"{reason}; obligations cannot be generated any more: proved->bounded, "
+                                   "decided by the bounded campaign of this property"})
     for q_, c_ in sorted(REG.contracts.items()):
         if not c_.verify:
             R.assume(f"assumed contract (not verified): {q_.replace('pyvolutionary.', '')} - {c_.assumed_reason}")
